@@ -18,7 +18,7 @@ BUDGET = {"quick": 8000, "thorough": 500000}
 RULE = (
     "case = (trie built from 1-10 items with mostly >=32-byte values so nodes are hashed, "
     "a hidden subset of its hashed nodes (index list / all / all-but-root / only root), "
-    "one operation in {get, exists, set, delete, set-empty, traverse(path), "
+    "one to three consecutive operations in {get, exists, set, delete, set-empty, traverse(path), "
     "traverse_from(node@prefix, segment), root_node} with index-based keys and paths, "
     "inside or outside squash_changes, prune on/off). Oracle: loop 'call; on "
     "MissingTrieNode/MissingTraversalNode check the report, reveal exactly that node, "
@@ -75,6 +75,7 @@ def strategy(tier):
             "items": st.lists(item, min_size=1, max_size=n_items),
             "hidden": hidden,
             "op": op,
+            "more": st.lists(op, max_size=2),
         }
     )
 
@@ -158,7 +159,6 @@ def run_case(case):
     else:
         hidden = {hashed[i % len(hashed)] for i in hs[1]} if hashed else set()
     info.label(f"hidden:{hs[0]}")
-    n_hidden = len(hidden)
     lossy = LossyDB(full, hidden)
     complete = impl("construct", HexaryTrie, dict(full), ref.root_hash)
 
@@ -173,158 +173,201 @@ def run_case(case):
         t = cm_enter("squash_changes", cm)
         info.label("in-batch")
 
-    op = case["op"]
-    kind = op["kind"]
-    info.label("op:" + kind)
-    key = resolve_key(op["key"], sorted(model))
-    kn = nibbles_of(key)
-    path = kn
-    if op["cut"] is not None:
-        path = path[: op["cut"] % (len(path) + 1)]
-    if op["extra"] is not None:
-        path = path + (op["extra"],)
+    state = {"model": model, "ref": ref, "where": where, "children_of": children_of,
+             "complete": complete, "full": full}
 
-    # ---- set up the call and its expected complete-database result -----------------
-    start_prefix = ()
-    if kind in ("get", "exists"):
-        fn = (lambda: t.get(key)) if kind == "get" else (lambda: t.exists(key))
-        want = model.get(key, b"") if kind == "get" else (key in model)
-        target_nibbles = kn
-    elif kind in ("set", "delete", "sete"):
-        new_model = dict(model)
-        if kind == "set":
-            val = resolve_val(op["val"], key)
-            new_model[key] = val
-            fn = lambda: t.set(key, val)  # noqa: E731
-        elif kind == "delete":
-            new_model.pop(key, None)
-            fn = lambda: t.delete(key)  # noqa: E731
-        else:
-            new_model.pop(key, None)
-            fn = lambda: t.set(key, b"")  # noqa: E731
-        want = RefTrie(new_model).root_hash
-        target_nibbles = kn
-    elif kind == "traverse":
-        fn = lambda: t.traverse(path)  # noqa: E731
-        want = impl("traverse-complete", complete.traverse, path, allowed=(TraversedPartialPath,))
-        target_nibbles = path
-    elif kind == "traverse_from":
-        # start from a reference node whose prefix is a prefix of `path`
-        starts = [n.prefix for n in ref.path_nodes(path) if path[: len(n.prefix)] == n.prefix]
-        starts = [p for p in starts if len(p) <= len(path)] or [()]
-        start_prefix = starts[op["split"] % len(starts)]
-        start_node = impl("traverse-complete", complete.traverse, start_prefix,
-                          allowed=(TraversedPartialPath,))
-        if isinstance(start_node, Raised):
-            start_prefix = ()
-            start_node = impl("traverse-complete", complete.traverse, ())
-        segment = path[len(start_prefix):]
-        fn = lambda: t.traverse_from(start_node, segment)  # noqa: E731
-        want = impl("traverse-complete", complete.traverse_from, start_node, segment,
-                    allowed=(TraversedPartialPath,))
-        target_nibbles = path
-    else:
-        fn = lambda: t.root_node  # noqa: E731
-        want = impl("traverse-complete", lambda: complete.root_node)
-        target_nibbles = ()
+    def refresh(new_model):
+        """After a successful mutation: the reference, the complete trie and the node universe."""
+        nref = RefTrie(new_model)
+        nwhere, nchildren = defaultdict(list), defaultdict(set)
+        for n in nref.preorder():
+            h = nref.root_hash if n is nref.root else (n.ref if n.hashed else None)
+            if h is not None:
+                nwhere[h].append(n.prefix)
+            for c in n.subs():
+                if c.hashed:
+                    nchildren[n.prefix].add(c.ref)
+        universe = dict(state["full"])
+        universe.update(dict.items(lossy))
+        if cm is not None:
+            universe.update(impl("scratch-copy", t.db.copy))
+        _, nbodies = nref.hashed_multiset()
+        for h, b in nbodies.items():
+            expect("mutation-stores-every-node", universe.get(h) == b,
+                   lambda: f"node {h.hex()} of the new root was not written")
+        state.update(model=new_model, ref=nref, where=nwhere, children_of=nchildren, full=universe,
+                     complete=impl("construct", HexaryTrie, dict(universe), nref.root_hash))
 
-    on_path = ref.hashed_on_path(target_nibbles)
-    path_prefixes = [n.prefix for n in ref.path_nodes(target_nibbles)]
-    reported = []
-    deep_mutation_failure = False
-    result = None
-    for attempt in range(n_hidden + 2):
-        before = _snapshot(t, lossy)
-        r = impl("only-missing-node-errors", fn,
-                 allowed=(MissingTrieNode, MissingTraversalNode, TraversedPartialPath))
-        if not (isinstance(r, Raised) and isinstance(r.exc, (MissingTrieNode, MissingTraversalNode))):
-            result = r
-            break
-        exc = r.exc
-        h = bytes(exc.missing_node_hash)
-        # ---- the report tells the truth ------------------------------------------
-        expect("reported-node-really-absent", h in lossy.hidden,
-               lambda: f"{kind}: reported {h.hex()} which is not absent from the database")
-        expect("reported-node-exists-in-full-db", h in full, f"{kind}: reported unknown hash {h.hex()}")
-        expect("each-node-asked-once", h not in reported, f"{kind}: node {h.hex()} reported twice")
-        if kind in ("get", "exists", "set", "delete", "sete"):
-            expect("report-type", isinstance(exc, MissingTrieNode),
-                   f"{kind} raised {type(exc).__name__} instead of MissingTrieNode")
-            expect_eq("report-root-hash", bytes(exc.root_hash), bytes(t.root_hash), "root_hash of the report")
-            expect_eq("report-requested-key", bytes(exc.requested_key), key, "requested_key of the report")
-        else:
-            expect("report-type", isinstance(exc, MissingTraversalNode),
-                   f"{kind} raised {type(exc).__name__} instead of MissingTraversalNode")
+    def do_op(op):
+        model, ref, where, children_of = state["model"], state["ref"], state["where"], state["children_of"]
+        complete, full = state["complete"], state["full"]
+        n_hidden = len(lossy.hidden)
+        op = case["op"]
+        kind = op["kind"]
+        info.label("op:" + kind)
+        key = resolve_key(op["key"], sorted(model))
+        kn = nibbles_of(key)
+        path = kn
+        if op["cut"] is not None:
+            path = path[: op["cut"] % (len(path) + 1)]
+        if op["extra"] is not None:
+            path = path + (op["extra"],)
+
+        # ---- set up the call and its expected complete-database result -----------------
+        start_prefix = ()
         if kind in ("get", "exists"):
-            pfx = None if exc.prefix is None else tuple(int(x) for x in exc.prefix)
-            expect("report-on-path-with-exact-prefix", (pfx, h) in on_path,
-                   lambda: f"{kind}({key!r}) reported node {h.hex()} at prefix {pfx}; hashed "
-                           f"nodes on the path: {[(p, x.hex()[:8]) for p, x in on_path]}")
-        elif kind in ("traverse", "traverse_from", "root_node"):
-            rel = tuple(int(x) for x in exc.nibbles_traversed)
-            absolute = tuple(start_prefix) + rel
-            expect("report-on-path-with-exact-prefix", (absolute, h) in on_path
-                   and (kind != "traverse_from" or len(absolute) > len(start_prefix)),
-                   lambda: f"{kind}({path}) from {start_prefix} reported {h.hex()} after "
-                           f"nibbles {rel}; hashed nodes on the path: "
-                           f"{[(p, x.hex()[:8]) for p, x in on_path]}")
+            fn = (lambda: t.get(key)) if kind == "get" else (lambda: t.exists(key))
+            want = model.get(key, b"") if kind == "get" else (key in model)
+            target_nibbles = kn
+        elif kind in ("set", "delete", "sete"):
+            new_model = dict(model)
+            if kind == "set":
+                val = resolve_val(op["val"], key)
+                new_model[key] = val
+                fn = lambda: t.set(key, val)  # noqa: E731
+            elif kind == "delete":
+                new_model.pop(key, None)
+                fn = lambda: t.delete(key)  # noqa: E731
+            else:
+                new_model.pop(key, None)
+                fn = lambda: t.set(key, b"")  # noqa: E731
+            want = RefTrie(new_model).root_hash
+            target_nibbles = kn
+        elif kind == "traverse":
+            fn = lambda: t.traverse(path)  # noqa: E731
+            want = impl("traverse-complete", complete.traverse, path, allowed=(TraversedPartialPath,))
+            target_nibbles = path
+        elif kind == "traverse_from":
+            # start from a reference node whose prefix is a prefix of `path`
+            starts = [n.prefix for n in ref.path_nodes(path) if path[: len(n.prefix)] == n.prefix]
+            starts = [p for p in starts if len(p) <= len(path)] or [()]
+            start_prefix = starts[op["split"] % len(starts)]
+            start_node = impl("traverse-complete", complete.traverse, start_prefix,
+                              allowed=(TraversedPartialPath,))
+            if isinstance(start_node, Raised):
+                start_prefix = ()
+                start_node = impl("traverse-complete", complete.traverse, ())
+            segment = path[len(start_prefix):]
+            fn = lambda: t.traverse_from(start_node, segment)  # noqa: E731
+            want = impl("traverse-complete", complete.traverse_from, start_node, segment,
+                        allowed=(TraversedPartialPath,))
+            target_nibbles = path
         else:
-            on_key_path = any(p in path_prefixes for p in where[h])
-            # A delete that really removes a key may additionally need the one remaining
-            # sibling below a path node (to collapse the branch); nothing else is needed.
-            sibling_ok = kind in ("delete", "sete") and key in model and any(
-                h in children_of[p] for p in path_prefixes)
-            expect("mutation-report-on-path-or-sibling", on_key_path or sibling_ok,
-                   lambda: f"{kind}({key!r}) reported {h.hex()} at {where[h]} which does not lie on "
-                           f"the key's path {path_prefixes}"
-                           + ("" if kind == "set" or key not in model else " nor directly below it"))
-            if exc.prefix is not None:
-                pfx = tuple(int(x) for x in exc.prefix)
-                expect("mutation-report-prefix", pfx in where[h],
-                       f"{kind}: prefix {pfx} does not lead to the reported node")
-            if min(len(p) for p in where[h]) >= 2:
-                deep_mutation_failure = True
-        # ---- the failed call changed nothing ----------------------------------------
-        after = _snapshot(t, lossy)
-        for part in before:
-            expect_eq("failed-call-changes-nothing", after[part], before[part],
-                      f"{part} after a failed {kind}")
-        reported.append(h)
-        lossy.reveal(h)
-        info.count("reports")
-    else:
-        expect("retry-converges", False,
-               f"{kind}: still failing after revealing {len(reported)} reported nodes")
+            fn = lambda: t.root_node  # noqa: E731
+            want = impl("traverse-complete", lambda: complete.root_node)
+            target_nibbles = ()
 
-    # ---- the complete-database result -------------------------------------------------
-    if kind in ("get", "exists"):
-        expect_eq("converges-to-correct-result", result, want, f"{kind}({key!r}) after reveals")
-        nonblank = bool(result)
-    elif kind in ("set", "delete", "sete"):
-        expect_eq("converges-to-correct-result", bytes(t.root_hash), want,
-                  f"root after {kind}({key!r}) succeeded")
-        nonblank = True
-    else:
-        if isinstance(want, Raised):
-            expect("converges-to-correct-result", isinstance(result, Raised)
-                   and isinstance(result.exc, TraversedPartialPath)
-                   and result.exc.args == want.exc.args,
-                   lambda: f"{kind}: expected {want!r}, got {result!r}")
+        on_path = ref.hashed_on_path(target_nibbles)
+        path_prefixes = [n.prefix for n in ref.path_nodes(target_nibbles)]
+        reported = []
+        deep_mutation_failure = False
+        result = None
+        for attempt in range(n_hidden + 2):
+            before = _snapshot(t, lossy)
+            r = impl("only-missing-node-errors", fn,
+                     allowed=(MissingTrieNode, MissingTraversalNode, TraversedPartialPath))
+            if not (isinstance(r, Raised) and isinstance(r.exc, (MissingTrieNode, MissingTraversalNode))):
+                result = r
+                break
+            exc = r.exc
+            h = bytes(exc.missing_node_hash)
+            # ---- the report tells the truth ------------------------------------------
+            expect("reported-node-really-absent", h in lossy.hidden,
+                   lambda: f"{kind}: reported {h.hex()} which is not absent from the database")
+            expect("reported-node-exists-in-full-db", h in full, f"{kind}: reported unknown hash {h.hex()}")
+            expect("each-node-asked-once", h not in reported, f"{kind}: node {h.hex()} reported twice")
+            if kind in ("get", "exists", "set", "delete", "sete"):
+                expect("report-type", isinstance(exc, MissingTrieNode),
+                       f"{kind} raised {type(exc).__name__} instead of MissingTrieNode")
+                expect_eq("report-root-hash", bytes(exc.root_hash), bytes(t.root_hash), "root_hash of the report")
+                expect_eq("report-requested-key", bytes(exc.requested_key), key, "requested_key of the report")
+            else:
+                expect("report-type", isinstance(exc, MissingTraversalNode),
+                       f"{kind} raised {type(exc).__name__} instead of MissingTraversalNode")
+            if kind in ("get", "exists"):
+                pfx = None if exc.prefix is None else tuple(int(x) for x in exc.prefix)
+                expect("report-on-path-with-exact-prefix", (pfx, h) in on_path,
+                       lambda: f"{kind}({key!r}) reported node {h.hex()} at prefix {pfx}; hashed "
+                               f"nodes on the path: {[(p, x.hex()[:8]) for p, x in on_path]}")
+            elif kind in ("traverse", "traverse_from", "root_node"):
+                rel = tuple(int(x) for x in exc.nibbles_traversed)
+                absolute = tuple(start_prefix) + rel
+                expect("report-on-path-with-exact-prefix", (absolute, h) in on_path
+                       and (kind != "traverse_from" or len(absolute) > len(start_prefix)),
+                       lambda: f"{kind}({path}) from {start_prefix} reported {h.hex()} after "
+                               f"nibbles {rel}; hashed nodes on the path: "
+                               f"{[(p, x.hex()[:8]) for p, x in on_path]}")
+            else:
+                on_key_path = any(p in path_prefixes for p in where[h])
+                # A delete that really removes a key may additionally need the one remaining
+                # sibling below a path node (to collapse the branch); nothing else is needed.
+                sibling_ok = kind in ("delete", "sete") and key in model and any(
+                    h in children_of[p] for p in path_prefixes)
+                expect("mutation-report-on-path-or-sibling", on_key_path or sibling_ok,
+                       lambda: f"{kind}({key!r}) reported {h.hex()} at {where[h]} which does not lie on "
+                               f"the key's path {path_prefixes}"
+                               + ("" if kind == "set" or key not in model else " nor directly below it"))
+                if exc.prefix is not None:
+                    pfx = tuple(int(x) for x in exc.prefix)
+                    expect("mutation-report-prefix", pfx in where[h],
+                           f"{kind}: prefix {pfx} does not lead to the reported node")
+                if min(len(p) for p in where[h]) >= 2:
+                    deep_mutation_failure = True
+            # ---- the failed call changed nothing ----------------------------------------
+            after = _snapshot(t, lossy)
+            for part in before:
+                expect_eq("failed-call-changes-nothing", after[part], before[part],
+                          f"{part} after a failed {kind}")
+            reported.append(h)
+            lossy.reveal(h)
+            info.count("reports")
+        else:
+            expect("retry-converges", False,
+                   f"{kind}: still failing after revealing {len(reported)} reported nodes")
+
+        # ---- the complete-database result -------------------------------------------------
+        if kind in ("get", "exists"):
+            expect_eq("converges-to-correct-result", result, want, f"{kind}({key!r}) after reveals")
+            nonblank = bool(result)
+        elif kind in ("set", "delete", "sete"):
+            expect_eq("converges-to-correct-result", bytes(t.root_hash), want,
+                      f"root after {kind}({key!r}) succeeded")
             nonblank = True
         else:
-            expect_eq("converges-to-correct-result", result, want, f"{kind} result after reveals")
-            nonblank = bool(result.raw)
+            if isinstance(want, Raised):
+                expect("converges-to-correct-result", isinstance(result, Raised)
+                       and isinstance(result.exc, TraversedPartialPath)
+                       and result.exc.args == want.exc.args,
+                       lambda: f"{kind}: expected {want!r}, got {result!r}")
+                nonblank = True
+            else:
+                expect_eq("converges-to-correct-result", result, want, f"{kind} result after reveals")
+                nonblank = bool(result.raw)
+        if kind in ("set", "delete", "sete"):
+            refresh(new_model)
+        return len(reported), nonblank, deep_mutation_failure, kind, want
+
+    total_reports, any_nonblank, any_deep = 0, False, False
+    last_mutation_root = None
+    for op in [case["op"]] + list(case.get("more", [])):
+        nrep, nb, deep, kind, want = do_op(op)
+        total_reports += nrep
+        any_nonblank |= nb and nrep > 0
+        any_deep |= deep
+        if kind in ("set", "delete", "sete"):
+            last_mutation_root = want
+        info.label("multi-op", op is not case["op"])
     if cm is not None:
         # leaving the batch may need the (hidden) root body of the new root: not part of
         # the claim, so reveal everything first
         for h in list(lossy.hidden):
             lossy.reveal(h)
         cm_exit("squash_changes-exit", cm)
-        if kind in ("set", "delete", "sete"):
-            expect_eq("converges-to-correct-result", bytes(outer.root_hash), want,
+        if last_mutation_root is not None:
+            expect_eq("converges-to-correct-result", bytes(outer.root_hash), last_mutation_root,
                       "outer root after the batch")
-    info.label("reports>=1", bool(reported))
-    info.label("reports>=3", len(reported) >= 3)
-    info.label("deep-mutation-failure", deep_mutation_failure)
-    info.nontrivial = (bool(reported) and nonblank) or deep_mutation_failure
+    info.label("reports>=1", total_reports >= 1)
+    info.label("reports>=3", total_reports >= 3)
+    info.label("deep-mutation-failure", any_deep)
+    info.nontrivial = any_nonblank or any_deep
     return info
